@@ -150,3 +150,10 @@ def run(ctx):
         ctx.ob('ZERO-ALLOC', g.name, not bad and (bool(al) or bool(via)), g.loc(bad[0]) if bad else g.loc(g.body), '%s allocates with %s' % (g.name, sorted({c['callee'] for c in al + via}) or 'nothing recognisable') +
                ('' if not bad else ': the block is not zeroed — bytes the caller never sets (padding after a string terminator, unused table slots) reach the file with whatever the heap held before'), None)
     ctx.require(nza >= 6, 'only %d allocator helpers found' % nza)
+
+    ctx.rule('WH-STATE', 'every store / increment through a pointer in a function installed in the write_header slot goes to the header cache, to a geometry field recomputed on every call '
+             '(datalength, dataoffset, filelength, sf.frames, dataend, endian, bytewidth, error) or to a listed per-container header field (engine/whstate.py, one reason each): '
+             'no other persistent state (peak edit count, codec predictor, string table) may depend on how many times the header was written', floor=18)
+    from engine.whstate import wh_state
+    n_wh_ = wh_state(ctx, prog)
+    ctx.require(n_wh_ >= 18, 'only %d header writers found' % n_wh_)
